@@ -100,7 +100,7 @@ Section Swarm.
   (* params = [(lb, ub)]; xs = vector, bs = best_vector, gs = leader's vector; a missing parameter,
      best or leader coordinate is an IndexError (None); all weight draws must be consumed *)
   Fixpoint velocity_coords (k : vkind) (d : draws) (ws : list T) (params : list (T * T))
-           (xs bs gs : list T) : option (list T) :=
+           (xs bs gs : list T) {struct xs} : option (list T) :=
     match xs with
     | [] => match ws with [] => Some [] | _ => None end
     | x :: xs' =>
